@@ -32,7 +32,12 @@ WITNESS = {
 }
 
 
+_PROG = None
+
+
 def run(prog, chk, reach):
+    global _PROG
+    _PROG = prog
     n_iter = n_other = 0
     mc = must_consume_set(prog)
     for bid in sorted(reach):
@@ -618,6 +623,17 @@ def _positive(body, op, depth=6, use_bb=None):
     defs = body.defs_of(pl[0])
     if not defs:
         return False
+    if len(defs) == 1 and defs[0][1] == R.TERM and "fn" in defs[0][2]:
+        ct = defs[0][2]
+        cp = Callee(ct["fn"]).path
+        from sa import discharge as D_
+
+        if cp.endswith("Option::<T>::map_or") and len(ct["args"]) == 3 and _PROG is not None:
+            # `opt.map_or(d, |i| i + k)`: positive when d is and k >= 1
+            if _positive(body, ct["args"][1], depth - 1) and (D_.closure_adds(_PROG, body, ct["args"][2]) or 0) >= 1:
+                return True
+        if cp.endswith("<impl str>::len") and ct["args"] and D_.ascii_match_tail(body, ct["args"][0]):
+            return True  # the tail of a split at a hit holds the matched character
     # every definition reaching must be positive; a `+= const` redefinition makes the variable positive
     res = []
     for (b, i, rv) in defs:
@@ -737,7 +753,7 @@ def _transfer_block(body, b, st, var):
             if o[0] == "rv" and o[1].get("adt", "").endswith("RangeFrom") and a0 != UNKNOWN:
                 v = STRICT if (_positive(body, o[1]["ops"][0], use_bb=b) or a0 == STRICT) else SUFFIX
         elif last == "split_at" and a0 != UNKNOWN:
-            st[(d[0], (".1",))] = max(a0, SUFFIX)
+            st[(d[0], (".1",))] = STRICT if (a0 == STRICT or _positive(body, t["args"][1], use_bb=b)) else max(a0, SUFFIX)
             st[(d[0], (".0",))] = UNKNOWN
             v = UNKNOWN
         elif last in ("strip_prefix",) and a0 != UNKNOWN:
